@@ -165,6 +165,12 @@ def run(case, tape=None):
                 raise OracleFail('wrong-data', dict(step=step, op=op, rank=rank, layout=layout,
                                                     saved=None if saved is None else saved[1],
                                                     diff=cm.first_diff(got, want)))
+            # the slice accessors must look at the same memory as getAllData()
+            z = (0,) * (got.ndim - 1)
+            if got.size and not cm.bits_equal(grid.get1DSlice(*z), got[z]):
+                raise OracleFail('wrong-data', dict(step=step, op=op, rank=rank, why='get1DSlice is a stale view'))
+            if got.size and got.ndim >= 2 and not cm.bits_equal(grid.get2DSlice(*z[:-1]), got[z[:-1]]):
+                raise OracleFail('wrong-data', dict(step=step, op=op, rank=rank, why='get2DSlice is a stale view'))
             if rank == 0:
                 states.add((layout, saved is not None, None if saved is None else saved[1],
                             getattr(grid, '_dataIdx', None), getattr(grid, '_buffIdx', None),
